@@ -351,7 +351,16 @@ pub fn run_once(p: &PlanParams, hist: &[usize]) -> StepReport {
             }
         }
         if let StepVerdict::Diverged(d) = verdict {
-            // a divergence of the history itself is the seq-based checks' business, not a plan question
+            // ANALYZE occurs in no other check's alphabet: a statement that answers differently because ANALYZE ran earlier
+            // in the history is this property's business (statistics must never change an answer)
+            if taint.is_empty() && ops[..=i].iter().any(|o| matches!(o, Op::Analyze)) {
+                rep.status = "violation".into();
+                rep.detail = format!("after ANALYZE a statement of the history itself no longer answers as the reference model says: {d}\n{}", ex.log.join("\n"));
+                rep.stop = true;
+                rep.key = ex.model.key();
+                return rep;
+            }
+            // any other divergence of the history itself is the seq-based checks' business, not a plan question
             rep.status = "tainted".into();
             rep.findings = vec!["live-divergence".into()];
             rep.detail = d;
